@@ -3,7 +3,6 @@ package parser
 import (
 	"errors"
 	"fmt"
-	"reflect"
 )
 
 func toFloat(op Operand) (float64, error) {
@@ -52,10 +51,11 @@ func newErrInvalidOperand(val Operand, typeObj interface{}) *ErrInvalidOperand {
 }
 
 func (e *ErrInvalidOperand) Error() string {
-	return fmt.Sprintf("Operand %v is not the correct type. Expected: %s, Actual: %s",
+	// %T also prints untyped nil values (reflect.TypeOf(nil) is a nil Type)
+	return fmt.Sprintf("Operand %v is not the correct type. Expected: %T, Actual: %T",
 		e.Val,
-		reflect.TypeOf(e.typeObj).String(),
-		reflect.TypeOf(e.Val).String(),
+		e.typeObj,
+		e.Val,
 	)
 }
 
